@@ -1574,7 +1574,10 @@ pub fn e4_single(ctx: &Ctx, name: &str, lens: &[u16], dists: &[u16], st: &mut Lo
     let mut idx = 0u64;
     for &dist in dists {
         for &len in lens {
-            for kind in 0..2 {
+            // kinds 2, 3: length 258 written as symbol 284 with extra bits 31
+            for kind in 0..(if len == 258 { 4 } else { 2 }) {
+                let irr = kind >= 2;
+                let kind = kind % 2;
                 let i = idx;
                 idx += 1;
                 if ctx.sel.mine(i) {
@@ -1586,7 +1589,7 @@ pub fn e4_single(ctx: &Ctx, name: &str, lens: &[u16], dists: &[u16], st: &mut Lo
                 if !ctx.take(name, i) {
                     continue;
                 }
-                let mut toks = vec![Tok::Lit(b'x'), Tok::Ref { len, dist, irr: false }];
+                let mut toks = vec![Tok::Lit(b'x'), Tok::Ref { len, dist, irr }];
                 for k in 0..11u8 {
                     toks.push(Tok::Lit(b'A' + k));
                 }
@@ -1594,13 +1597,13 @@ pub fn e4_single(ctx: &Ctx, name: &str, lens: &[u16], dists: &[u16], st: &mut Lo
                 // the reference sits one byte into the second block, so dist = 32768 reaches offset 1
                 let s = Stream { blocks: vec![Block::Stored { data: prefix.clone(), pad: 0 }, blk], final_pad: 0 };
                 let bytes = serialise(&s);
-                let case = StreamCase { stream_len: bytes.len(), bytes, plain: Some(plaintext(&s)), descr: format!("single ref len {} dist {} {}", len, dist, if kind == 0 { "fixed" } else { "dynamic" }) };
+                let case = StreamCase { stream_len: bytes.len(), bytes, plain: Some(plaintext(&s)), descr: format!("single ref len {} dist {} {}{}", len, dist, if kind == 0 { "fixed" } else { "dynamic" }, if irr { " 284+31" } else { "" }) };
                 deliver(ctx, name, st, i, case, f);
             }
         }
     }
     let e = st.eng(name);
-    e.bound = format!("{} distances x lengths {:?} x {{fixed, dynamic}}: one reference per stream behind a 32 KiB stored prefix", dists.len(), lens);
+    e.bound = format!("{} distances x lengths {:?} x {{fixed, dynamic}} (258 in both codings): one reference per stream behind a 32 KiB stored prefix", dists.len(), lens);
     e.exhaustive = true;
 }
 
